@@ -8,6 +8,7 @@ from ..core import FUNC, call_attr, calls_in, const, dotted, is_const, kwarg, no
 from .c09 import waiter_rule, _stored_in_cancelled_table
 
 EXPLANATION = [
+    'C16.settle-guard: every set_result / set_exception on a future kept in a channel attribute is under `not <future>.done()`, unless every coroutine waiting on that attribute clears it in a finally (a waiter that timed out leaves a cancelled future behind; settling it raises InvalidStateError in the middle of the link teardown).',
     'C16.uncalled-predicate: done / cancelled / is_set / locked / empty used as truth values are called (a bound method is always true).',
     'C16.dead-default-check: no value obtained by indexing a defaultdict attribute is afterwards tested for absence (`is None` / falsy): such a test is dead and the lookup has created the entry (drain() would wait on a fresh event nobody sets).',
     'C16.one-shot: no name bound to a generator expression or to filter() / map() / zip() / reversed() / enumerate() is read in more than one consuming position or inside a loop that evaluates it repeatedly: such an iterator is empty after its first walk.',
@@ -572,7 +573,13 @@ def uncalled_predicate_rule(ctx):
     uncalled_predicate(ctx, 'C16.uncalled-predicate', ['bumble.device', 'bumble.host', 'bumble.l2cap', 'bumble.gatt_client', 'bumble.gatt_server', 'bumble.rfcomm'])
 
 
+def settle_guard_rule(ctx):
+    from ..generic_rules import settle_guard
+    settle_guard(ctx, 'C16.settle-guard', ['bumble.l2cap.ClassicChannel', 'bumble.l2cap.LeCreditBasedChannel'])
+
+
 RULES = [
+    ('C16.settle-guard', settle_guard_rule),
     ('C16.uncalled-predicate', uncalled_predicate_rule),
     ('C16.dead-default-check', dead_default_check_rule),
     ('C16.one-shot', one_shot_rule),
